@@ -86,6 +86,12 @@ pub struct Knobs {
     pub policy: PolicyCfg,
     pub sched_seed: u64,
     pub tokio_seed: u64,
+    /// Ad hoc commands go to a remote host (one channel for all target lanes).
+    #[serde(default)]
+    pub remote_host: bool,
+    /// Values that are multiples of this make the on_event handler of `val` / `tval` fail (0 = never).
+    #[serde(default)]
+    pub fail_on_multiple_of: i32,
     /// Start value of std's hash keys on the run's thread (iteration order of the product's HashMaps).
     #[serde(default)]
     pub hash_seed: u64,
@@ -166,6 +172,7 @@ struct Gen {
     next_val: i32,
     /// The scripted agent has no control lane: only direct commands.
     fake: bool,
+    fake_persist: bool,
 }
 
 impl Gen {
@@ -174,6 +181,11 @@ impl Gen {
         self.next_val += n.max(1);
         s
     }
+}
+
+/// The scripted agent in lane-failure mode (it has a map lane too); the persistent mode has none at start.
+fn focus_is_c04f(g: &Gen) -> bool {
+    g.fake && !g.fake_persist
 }
 
 const SMAP_KEYS: [&str; 6] = ["a", "b c", "true", "", "\"q\"", "é\\n"];
@@ -250,7 +262,7 @@ fn gen_read(rng: &mut Rng, slow_bias: bool) -> ReadCfg {
 
 pub fn generate(seed: u64, focus: &str, _tier: Tier) -> AgentScenario {
     let root = Rng::new(seed);
-    let mut g = Gen { rng: root.sub("scenario"), next_val: 1000, fake: focus == "C04F" || focus == "C05F" };
+    let mut g = Gen { rng: root.sub("scenario"), next_val: 1000, fake: focus == "C04F" || focus == "C05F", fake_persist: focus == "C05F" };
     let mix = mix_for(focus);
     let small = g.rng.chance(3, 4);
     let buf_choices: &[u32] = if small { &[8, 12, 16, 24, 32, 48, 64, 128] } else { &[256, 4096] };
@@ -275,6 +287,8 @@ pub fn generate(seed: u64, focus: &str, _tier: Tier) -> AgentScenario {
         sched_seed: root.sub("sched").next_u64(),
         tokio_seed: root.sub("tokio").next_u64(),
         hash_seed: root.sub("hash").next_u64() | 1,
+        remote_host: root.sub("remote-host").chance(1, 2),
+        fail_on_multiple_of: if focus == "C01" && root.sub("handler-fail").chance(1, 3) { 7 } else { 0 },
         persistent: focus != "C04F" && (focus == "C05" || focus == "C05F" || g.rng.chance(1, 3)),
         target_cap: *g.rng.pick(&[8u32, 16, 32, 64, 4096]),
         target_read: gen_read(&mut g.rng, true),
@@ -389,7 +403,7 @@ pub fn generate(seed: u64, focus: &str, _tier: Tier) -> AgentScenario {
     };
     let fake = if focus == "C04F" {
         Some(super::fake::FailPlan {
-            lane: g.rng.pick(&["val", "tval"]).to_string(),
+            lane: g.rng.pick(&["val", "tval", "map"]).to_string(),
             after_requests: g.rng.range(0, 25) as u32,
             mode: if g.rng.chance(1, 2) { super::fake::FailMode::Garbage } else { super::fake::FailMode::DropIo },
         })
@@ -624,7 +638,7 @@ fn gen_op(g: &mut Gen, mix: &Mix, key_pool: i32, ops: &mut Vec<Op>, linked: &mut
             _ => ops.push(Op::Cmd { lane: "ctl".into(), body: ctl_recon(&Ctl::Clr { item: 3 }) }),
         }
     } else if take(mix.link_churn) {
-        let lane = if mix.map == 0 && mix.supply == 0 && mix.command == 0 { g.rng.pick(&["val", "tval"]).to_string() } else { g.rng.pick(&["val", "tval", "map", "bmap", "smap", "sup", "cmd"]).to_string() };
+        let lane = if focus_is_c04f(g) { g.rng.pick(&["val", "tval", "map"]).to_string() } else if mix.map == 0 && mix.supply == 0 && mix.command == 0 { g.rng.pick(&["val", "tval"]).to_string() } else { g.rng.pick(&["val", "tval", "map", "bmap", "smap", "sup", "cmd"]).to_string() };
         match g.rng.below(4) {
             0 | 1 => {
                 ops.push(Op::Link { lane: lane.clone() });
@@ -662,6 +676,8 @@ fn gen_op(g: &mut Gen, mix: &Mix, key_pool: i32, ops: &mut Vec<Op>, linked: &mut
     } else if take(mix.sync) {
         let lane = if !linked.is_empty() && g.rng.chance(2, 3) {
             linked[g.rng.usize_below(linked.len())].clone()
+        } else if focus_is_c04f(g) {
+            g.rng.pick(&["val", "tval", "map"]).to_string()
         } else if mix.map == 0 && mix.supply == 0 && mix.command == 0 {
             g.rng.pick(&["val", "tval"]).to_string()
         } else {
